@@ -186,6 +186,53 @@ def extras_chunk(args):
     return n, nt, mism, fails
 
 
+FRESH_EXTRAS = r'''
+import sys, json, warnings, dataclasses
+sys.path.insert(0, %r)
+import attr
+import prettyprinter as pp
+
+@dataclasses.dataclass
+class DC:
+    a: int
+    b: int = 5
+
+@attr.s
+class AT:
+    a = attr.ib()
+    b = attr.ib(default=5)
+
+out = {}
+with warnings.catch_warnings():
+    warnings.simplefilter('ignore')
+    out['dc_before'] = pp.pformat(DC(1))          # printed once while the extras are not installed yet (plain repr)
+    out['at_before'] = pp.pformat(AT(1))
+    pp.install_extras(['dataclasses', 'attrs'], warn_on_error=False)
+    out['dc_after'] = pp.pformat(DC(1))
+    out['at_after'] = pp.pformat(AT(1))
+    out['dc_other'] = pp.pformat(DC(2, 6))
+print('@@' + json.dumps(out))
+'''
+
+
+def fresh_install_check():
+    """installing the extras takes effect for classes that were already printed before (no per-class memo of 'no printer')"""
+    import json
+    import subprocess
+    from common import REPO
+    p = subprocess.run([sys.executable, '-c', FRESH_EXTRAS % (REPO,)], stdout=subprocess.PIPE, stderr=subprocess.DEVNULL, text=True, timeout=120)
+    for line in p.stdout.splitlines():
+        if line.startswith('@@'):
+            r = json.loads(line[2:])
+            want = {'dc_after': 'DC(a=1)', 'at_after': 'AT(a=1)', 'dc_other': 'DC(a=2, b=6)'}
+            bad = {k: r[k] for k, w in want.items() if r[k].replace('__main__.', '') != w}
+            if bad:
+                return {'kind': 'extras-install-after-first-print', 'why': 'a class printed once before install_extras keeps its old printing afterwards',
+                        'observed': r, 'expected_after_install': want}
+            return None
+    return {'kind': 'extras-install-after-first-print', 'why': 'fresh interpreter produced no result'}
+
+
 def extras_section(tier, seed):
     total = 400 if tier == 'quick' else 4000
     step = 25
@@ -198,7 +245,10 @@ def extras_section(tier, seed):
             nt += b
             mism.extend(mm)
             fails.extend(ff)
-    stats = {'evaluations': tot, 'distinct_nontrivial': nt, 'class_definitions': total, 'mismatches': len(mism),
+    ff = fresh_install_check()
+    if ff:
+        fails.append(ff)
+    stats = {'evaluations': tot, 'distinct_nontrivial': nt, 'class_definitions': total, 'mismatches': len(mism), 'fresh_interpreter_install_order_checked': True,
              'samples': [{'class': gen_class(random.Random(seed * 100003 + 3), 3)}],
              'rule': 'generated dataclass / attrs class definitions (0-4 fields incl. names ctx and fn; no default / default / default_factory; repr flags; frozen / slots; ClassVar with a changed value and InitVar pseudo-fields) '
                      'x 3 instances x {alone, in a list} x layouts; model = the call the property prescribes; oracle: no failure warning, eval rebuilds an equal instance'}
